@@ -202,6 +202,11 @@ Definition its_list (core invert : bool) (G H : hostg) (kept : list mapping) : l
   | Some (rc, _, _) => map (fun m => finish (mode_E G H) (glue (substrate invert G H) rc m)) kept
   end.
 
+(** HISTORY cases (harness/gen/c04_hist.py): a script of k steps on shared reactor / template / substrate objects, every
+    step compared with a fresh evaluation.  The model is a pure function of its inputs, so every step equals the fresh
+    value by construction: the expected observable is k times [true]. *)
+Definition pure_history (k : nat) : tok := tlist (fun _ : unit => tbool true) (repeat tt k).
+
 (** ** observables: see harness/props/C04.py *)
 (** [guard]: the documented strict_cc_count guard of the COMPONENT strategy applies (strategy = comp and the substrate has
     more connected components than the pattern: the engine returns no match at all; model/C06_Model.v find_comp) --
